@@ -131,6 +131,60 @@ pub fn noise_ok(g: &[u8]) -> bool {
     start_positions(&v) == vec![g.len()]
 }
 
+/// Reference extraction of the canonical frames contained in a byte dump (used only to load
+/// the corpus of real transmissions without going through the code under test).  Frames are
+/// read in 4-byte words from each start sequence; anything that is not a canonical frame is
+/// skipped.
+pub fn ref_extract(bytes: &[u8]) -> Vec<Vec<u8>> {
+    let mut out = Vec::new();
+    let mut i = 0usize;
+    'outer: while i + 16 <= bytes.len() {
+        if bytes[i..i + 8] != START {
+            i += 1;
+            continue;
+        }
+        // candidate end sequences: `1b1b1b1b 1a` at a 4-byte aligned offset from the start
+        let mut j = i + 8;
+        while j + 8 <= bytes.len() {
+            if bytes[j..j + 5] == [0x1b, 0x1b, 0x1b, 0x1b, 0x1a] {
+                // undo the escaping of the body; whatever comes out is only accepted if the
+                // reference encoder reproduces exactly these bytes
+                let body = &bytes[i + 8..j];
+                let mut data = Vec::with_capacity(body.len());
+                let mut run = 0;
+                let mut k = 0;
+                while k < body.len() {
+                    data.push(body[k]);
+                    if body[k] == 0x1b {
+                        run += 1;
+                    } else {
+                        run = 0;
+                    }
+                    k += 1;
+                    if run == 4 {
+                        if k + 4 <= body.len() && body[k..k + 4] == [0x1b; 4] {
+                            k += 4;
+                        }
+                        run = 0;
+                    }
+                }
+                let pad = bytes[j + 5] as usize;
+                if pad <= 3 && pad <= data.len() && data[data.len() - pad..].iter().all(|b| *b == 0) {
+                    data.truncate(data.len() - pad);
+                    if refenc(&data)[..] == bytes[i..j + 8] {
+                        out.push(data);
+                        i = j + 8;
+                        continue 'outer;
+                    }
+                }
+            }
+            j += 4;
+        }
+        i += 1;
+    }
+    out
+}
+
 /// start-up self test; any failure is a harness error (exit 2)
 pub fn self_test() -> Result<(), String> {
     if crc16_x25(b"123456789") != 0x906E {
@@ -161,6 +215,17 @@ pub fn self_test() -> Result<(), String> {
     ];
     if f != exp {
         return Err(format!("refenc empty example: {:02x?}", f));
+    }
+    {
+        let a = refenc(&[1, 2, 3, 0x1b, 0x1b, 0x1b, 0x1b, 9]);
+        let b = refenc(&[]);
+        let mut dump = vec![0x55, 0x1b];
+        dump.extend_from_slice(&a);
+        dump.extend_from_slice(&[7, 7, 7]);
+        dump.extend_from_slice(&b);
+        if ref_extract(&dump) != vec![vec![1, 2, 3, 0x1b, 0x1b, 0x1b, 0x1b, 9], vec![]] {
+            return Err("ref_extract".into());
+        }
     }
     if !noise_ok(&[]) || !noise_ok(&[0x1b]) || noise_ok(&START) || !noise_ok(&START[..7]) {
         return Err("noise_ok".into());
